@@ -48,14 +48,27 @@ def run(ctx):
     # 0..7 with symbolic data bytes: control flow depends only on the length, so each run is a
     # straight line; every emitted character must be alphabet[RFC 4648 sextet] or '=' in the RFC's
     # positions.  Any restructuring of the tail handling is accepted as long as this holds.
-    size_p = params_of(enc)[1]
+    eps = params_of(enc)
+    rets_ = [r_ for r_ in walk(ebody) if r_.get('kind') == 'ReturnStmt' and kids(r_)]
+    sink_rd = None
+    for r_ in rets_:
+        for y_ in walk(r_):
+            if y_.get('kind') == 'DeclRefExpr' and (y_.get('referencedDecl') or {}).get('kind') == 'VarDecl':
+                sink_rd = y_['referencedDecl']
+    ctx.require(sink_rd is not None, 'base64_encode: returned string variable not found')
+    X = BVExec(u)
     for n in range(0, 33 if ctx.tier == 'thorough' else 8):
-        out = []
-        I.notes = []
+        env0 = {eps[0]['id']: Ptr('D', '0', 0), eps[1]['id']: const_bv(n, 64), eps[2]['id']: Ptr('A', '0', 0), ('vec', sink_rd.get('name')): []}
+        X.notes = []
         try:
-            emit_exec(I, list(kids(ebody)), {size_p['id']: const_bv(n, 64)}, out, 'ret')
+            X.run([ebody], env0, 0)
         except Unsupported as e:
-            raise AnalysisBroken('base64_encode: statement form outside the supported set (%s)' % e)
+            ctx.undecided(R, 'encode|length-%d' % n, enc, 'base64_encode is outside the supported statement forms (%s)' % e)
+            continue
+        except Exception as e:
+            if e.__class__.__name__ != '_Ret':
+                raise
+        out = env0[('vec', sink_rd.get('name'))]
         want = []
         for blk in range((n + 2) // 3):
             k = blk * 3
@@ -66,32 +79,23 @@ def run(ctx):
                     for t in range(6):     # LSB first
                         bitpos = j * 6 + (5 - t)      # 0 = MSB of the 24-bit group
                         byte, bb = divmod(bitpos, 8)
-                        cells.append(('i', ('mem', 'data', '0', k + byte), 7 - bb) if byte < have else 0)
-                    want.append(('tab', cells))
+                        cells.append(('i', ('mem', 'D', '0', k + byte), 7 - bb) if byte < have else 0)
+                    want.append(tab_cells('A', 0, cells, 8))
                 else:
-                    want.append(('lit', ord('=')))
+                    want.append(const_bv(ord('='), 8).b)
         okn = len(out) == len(want)
         why = 'emits %d characters for %d input bytes, RFC 4648 requires %d' % (len(out), n, len(want))
-        site = enc
         if okn:
-            for j, (g, w) in enumerate(zip(out, want)):
-                site = g[-1]
-                if w[0] == 'lit':
-                    if not (g[0] == 'lit' and g[1] == w[1]):
-                        okn, why = False, 'character %d for a %d-byte input must be the padding \'=\', got %s' % (j, n, describe_emit(g))
-                        break
-                else:
-                    if g[0] != 'tab' or g[1] != 'alphabet':
-                        okn, why = False, 'character %d for a %d-byte input must be alphabet[sextet], got %s' % (j, n, describe_emit(g))
-                        break
-                    v = g[2]
-                    bad = expect_lanes(v, w[1] + [0] * (v.w - 6))
-                    if bad:
-                        okn, why = False, 'character %d for a %d-byte input: sextet %s' % (j, n, describe_mismatch(bad))
-                        break
-        if okn and I.notes:
-            okn, why = False, I.notes[0]
-        ctx.check(okn, R, 'encode|length-%d' % n, site, '%d input bytes -> %d characters, each alphabet[RFC 4648 sextet] or padding' % (n, len(want)), why)
+            for j, (g, w_) in enumerate(zip(out, want)):
+                if list(g.b[:8]) != list(w_):
+                    pad = w_ == const_bv(ord('='), 8).b
+                    okn, why = False, 'character %d for a %d-byte input must be %s; the function emits %s' % (
+                        j, n, "the padding '='" if pad else 'alphabet[the RFC 4648 sextet of the input bits]',
+                        "'%s'" % chr(bv_const(g)) if bv_const(g) is not None else ('a value that depends on the VALUE of an input byte' if T in g.b else 'alphabet[a different bit selection]: %s' % cell_str(g.b[0])))
+                    break
+        if okn and X.notes:
+            okn, why = False, X.notes[0]
+        ctx.check(okn, R, 'encode|length-%d' % n, enc, '%d input bytes -> %d characters, each alphabet[RFC 4648 sextet] or padding' % (n, len(want)), why)
     # decoder
     dbody = body_of(dec)
     dpush = [c for c in walk(dbody) if c.get('kind') == 'CXXMemberCallExpr' and call_name(c) == 'push_back' and canon(member_call_object(c)) == 'ret']
@@ -185,20 +189,19 @@ def run(ctx):
     R = 'C11-R3'
     rot = [f for f in u.func('phosg::rot13') if len(params_of(f)) == 2][0]
     ctx.fn('phosg::rot13')
-    lp = next(x for x in walk(body_of(rot)) if x.get('kind') in LOOPS)
-    chd, chain = loop_char_var(lp)
-    ctx.require(chd is not None and int_type_info(dtype(chd)) is not None and int_type_info(dtype(chd))[0] == 8, 'rot13: per-character variable not found')
-    signed = int_type_info(dtype(chd))[1]
+    from peval import PEval
+    PE = PEval([u])
+    PEs = PEval([us])
+    lp = rot
     for b in range(256):
-        env = {chd['id']: const_bv(b, 8, signed)}
-        em = emit_chain(I, {'kind': 'CompoundStmt', 'inner': chain}, env)
+        em, why_ = fold_per_byte(PE, rot, b, [], 'rot13', lit_arg=True)
         if 97 <= b <= 122:
             want = 97 + (b - 97 + 13) % 26
         elif 65 <= b <= 90:
             want = 65 + (b - 65 + 13) % 26
         else:
             want = b
-        ctx.check(em == bytes([want]), R, 'rot13|0x%02X' % b, lp, '0x%02X -> 0x%02X' % (b, want), 'rot13 maps byte 0x%02X to %s, expected 0x%02X (%s)' % (b, em.hex() if em is not None else 'an undecidable result', want, 'only ASCII letters may change' if want == b else 'letters rotate by 13 within their case'), nontrivial=(want != b or b in (64, 91, 96, 123, 0xC1, 0xE1)))
+        ctx.check(em == bytes([want]), R, 'rot13|0x%02X' % b, lp, '0x%02X -> 0x%02X' % (b, want), why_ or 'rot13 maps byte 0x%02X to %s, expected 0x%02X (%s)' % (b, em.hex() if em is not None else 'an undecidable result', want, 'only ASCII letters may change' if want == b else 'letters rotate by 13 within their case'), nontrivial=(want != b or b in (64, 91, 96, 123, 0xC1, 0xE1)))
 
     # ---------------- R4 escapers
     R = 'C11-R4'
@@ -223,45 +226,61 @@ def run(ctx):
     # escape_url
     f = us.func('phosg::escape_url')[0]
     ctx.fn('phosg::escape_url')
-    lp = next(x for x in walk(body_of(f)) if x.get('kind') in LOOPS)
-    chd, chain = loop_char_var(lp)
-    flag = params_of(f)[1]
+    lp = f
     for fl_ in (0, 1):
         for b in range(256):
-            env = {chd['id']: const_bv(b, 8, int_type_info(dtype(chd))[1]), flag['id']: const_bv(fl_, 1)}
-            em = emit_chain(Is, {'kind': 'CompoundStmt', 'inner': chain}, env)
+            em, why_ = fold_per_byte(PEs, f, b, [fl_], 'escape_url')
             raw_ok = (48 <= b <= 57 or 65 <= b <= 90 or 97 <= b <= 122 or b in b'-_.~=&' or (b == 47 and not fl_))
             ok = em is not None and unescape_pct(em) == b and ((len(em) == 1) == raw_ok)
             ctx.check(ok, R, 'escape_url|slash=%d|0x%02X' % (fl_, b), lp, '%r' % (em.decode('latin1') if em else None),
-                      'escape_url(escape_slash=%d) renders byte 0x%02X as %r; expected %s' % (fl_, b, em.decode('latin1') if em is not None else None, 'the raw character' if raw_ok else '%%%02X' % b), nontrivial=not raw_ok or b in (45, 47, 95))
+                      why_ or 'escape_url(escape_slash=%d) renders byte 0x%02X as %r; expected %s' % (fl_, b, em.decode('latin1') if em is not None else None, 'the raw character' if raw_ok else '%%%02X' % b), nontrivial=not raw_ok or b in (45, 47, 95))
     # escape_quotes
     f = us.func('phosg::escape_quotes')[0]
     ctx.fn('phosg::escape_quotes')
-    lp = next(x for x in walk(body_of(f)) if x.get('kind') in LOOPS)
-    chd, chain = loop_char_var(lp)
+    lp = f
     for b in range(256):
-        env = {chd['id']: const_bv(b, 8, int_type_info(dtype(chd))[1])}
-        em = emit_chain(Is, {'kind': 'CompoundStmt', 'inner': chain}, env)
+        em, why_ = fold_per_byte(PEs, f, b, [], 'escape_quotes')
         raw_allowed = 0x20 <= b <= 0x7E and b != 34
         # the property only requires: no raw quote, no raw non-printable byte (a raw backslash is permitted)
         ok = em is not None and ((len(em) == 1 and em[0] == b and raw_allowed) or (len(em) > 1 and unescape_c(em) == b))
         ctx.check(ok, R, 'escape_quotes|0x%02X' % b, lp, '%r' % (em.decode('latin1') if em else None),
-                  'escape_quotes renders byte 0x%02X as %r: %s' % (b, em.decode('latin1') if em is not None else None, 'a raw quote or non-printable byte is emitted' if em is not None and len(em) == 1 else 'the escape does not decode to the byte'), nontrivial=not raw_allowed)
+                  why_ or 'escape_quotes renders byte 0x%02X as %r: %s' % (b, em.decode('latin1') if em is not None else None, 'a raw quote or non-printable byte is emitted' if em is not None and len(em) == 1 else 'the escape does not decode to the byte'), nontrivial=not raw_allowed)
     # escape_controls
     f = us.func('phosg::escape_controls')[0]
     ctx.fn('phosg::escape_controls')
-    lp = next(x for x in walk(body_of(f)) if x.get('kind') in LOOPS)
-    chd, chain = loop_char_var(lp)
-    flag = params_of(f)[1]
+    lp = f
     for fl_ in (0, 1):
         for b in range(256):
-            env = {chd['id']: const_bv(b, 8, int_type_info(dtype(chd))[1]), flag['id']: const_bv(fl_, 1)}
-            em = emit_chain(Is, {'kind': 'CompoundStmt', 'inner': chain}, env)
+            em, why_ = fold_per_byte(PEs, f, b, [fl_], 'escape_controls')
             raw_allowed = (0x20 <= b <= 0x7E and b not in (34, 39, 92)) or (b >= 0x80 and not fl_)
             ok = em is not None and unescape_c(em) == b and (len(em) > 1 or raw_allowed)
             ctx.check(ok, R, 'escape_controls|non_ascii=%d|0x%02X' % (fl_, b), lp, '%r' % (em.decode('latin1') if em else None),
-                      'escape_controls(escape_non_ascii=%d) renders byte 0x%02X as %r: %s' % (fl_, b, em.decode('latin1') if em is not None else None, 'a raw control / DEL / quote / backslash byte is emitted' if em is not None and len(em) == 1 else 'the escape does not decode to the byte'), nontrivial=not raw_allowed)
+                      why_ or 'escape_controls(escape_non_ascii=%d) renders byte 0x%02X as %r: %s' % (fl_, b, em.decode('latin1') if em is not None else None, 'a raw control / DEL / quote / backslash byte is emitted' if em is not None and len(em) == 1 else 'the escape does not decode to the byte'), nontrivial=not raw_allowed)
     ctx.note('R3 and R4 are exhaustive over the 256 byte values (x flag values) on the extracted chains. Not decided: render_netloc/parse_netloc round trip (a value question: stod-based port parsing).')
+
+
+def fold_per_byte(PE, f, b, extra, what, lit_arg=False):
+    """text f produces for the one-byte input [b] (whole function partially evaluated on the constant
+    input; helpers, switch, std::transform folded) -> (bytes, None) | (None, reason for a violation)"""
+    from peval import Str, Lit, Undecided, Fault
+    try:
+        if lit_arg:
+            r = PE.call_with(f, [Lit(bytes([b])), 1] + list(extra))
+            r2 = PE.call_with(f, [Lit(bytes([0x41, b])), 2] + list(extra))
+        else:
+            r = PE.call_with(f, [Str(bytes([b]))] + list(extra))
+            r2 = PE.call_with(f, [Str(bytes([0x41, b]))] + list(extra))
+    except Undecided as e:
+        raise AnalysisBroken('%s: cannot fold the function on the constant byte 0x%02X (%s)' % (what, b, e))
+    except Fault as e:
+        return None, 'for byte 0x%02X %s %s' % (b, what, e)
+    if not isinstance(r, Str) or not isinstance(r2, Str):
+        raise AnalysisBroken('%s does not evaluate to a string for byte 0x%02X' % (what, b))
+    a = bytes(r2.b)
+    rb = bytes(r.b)
+    if not (a.endswith(rb) and len(a) - len(rb) >= 1):
+        return None, 'the text for byte 0x%02X depends on its position (%r alone, %r after "A")' % (b, rb, a)
+    return rb, None
 
 
 def describe_emit(g):
@@ -311,6 +330,52 @@ def emit_exec(I, stmts, env, out, sink):
                 raise Unsupported('branch on a non-constant condition `%s` at %s' % (src_text(cond, 50), loc_str(cond)))
             if r == 'return':
                 return 'return'
+            continue
+        if k == 'SwitchStmt':
+            ks_ = [c for c in kids(s_) if c.get('kind')]
+            v_ = bv_const(I.eval(ks_[-2], env))
+            if v_ is None:
+                raise Unsupported('switch on a non-constant at %s' % loc_str(s_))
+            body_ = ks_[-1]
+            sts_ = list(kids(body_)) if body_.get('kind') == 'CompoundStmt' else [body_]
+            start, dflt = None, None
+            for i_, st_ in enumerate(sts_):
+                x_ = st_
+                while x_ is not None and x_.get('kind') in ('CaseStmt', 'DefaultStmt'):
+                    if x_.get('kind') == 'CaseStmt':
+                        if bv_const(I.eval(kids(x_)[0], env)) == v_ and start is None:
+                            start = i_
+                    else:
+                        dflt = i_
+                    sub_ = [c for c in kids(x_) if c.get('kind')]
+                    x_ = sub_[-1] if sub_ else None
+            if start is None:
+                start = dflt
+            if start is not None:
+                done = False
+                for st_ in sts_[start:]:
+                    x_ = st_
+                    while x_ is not None and x_.get('kind') in ('CaseStmt', 'DefaultStmt'):
+                        sub_ = [c for c in kids(x_) if c.get('kind')]
+                        x_ = sub_[-1] if sub_ else None
+                    if x_ is None:
+                        continue
+                    if x_.get('kind') == 'BreakStmt':
+                        break
+                    if x_.get('kind') == 'CompoundStmt' and any(y_.get('kind') == 'BreakStmt' for y_ in kids(x_)):
+                        pre_ = []
+                        for y_ in kids(x_):
+                            if y_.get('kind') == 'BreakStmt':
+                                done = True
+                                break
+                            pre_.append(y_)
+                        if emit_exec(I, pre_, env, out, sink) == 'return':
+                            return 'return'
+                        if done:
+                            break
+                        continue
+                    if emit_exec(I, [x_], env, out, sink) == 'return':
+                        return 'return'
             continue
         if k in ('ForStmt', 'WhileStmt'):
             if k == 'ForStmt':
